@@ -7,13 +7,14 @@ V = os.path.dirname(os.path.dirname(os.path.abspath(__file__)))
 WT = f"/tmp/wt_seed_{os.getpid()}"; VS = f"/tmp/vs_seed_{os.getpid()}"; TGT = "/tmp/seed_target"
 def sh(cmd, timeout=3000): return subprocess.run(cmd, shell=True, capture_output=True, text=True, timeout=timeout)
 def main():
-    d, prop = sys.argv[1], sys.argv[2]
+    d, prop = os.path.abspath(sys.argv[1]), sys.argv[2]
     confirm = "--confirm" in sys.argv
     sh(f"git -C /repo worktree remove --force {WT}"); shutil.rmtree(WT, ignore_errors=True); shutil.rmtree(VS, ignore_errors=True)
     assert sh(f"git -C /repo worktree add -q --detach {WT} HEAD").returncode == 0
     os.makedirs(VS, exist_ok=True); shutil.copy(os.path.join(V, "known_findings.txt"), VS)
     r = sh(f"git -C {WT} apply {d}/patch.diff")
-    if r.returncode != 0: print("PATCH DOES NOT APPLY", r.stderr[:300]); return 2
+    if r.returncode != 0:
+        print("PATCH DOES NOT APPLY", r.stderr[:300]); sh(f"git -C /repo worktree remove --force {WT}"); shutil.rmtree(WT, ignore_errors=True); shutil.rmtree(VS, ignore_errors=True); return 2
     res = {"property": prop}
     if confirm:
         t = sh(f"cd {WT} && CARGO_TARGET_DIR={TGT} cargo test --workspace --no-fail-fast --offline 2>&1 | grep -E '^test result|^error' | grep -v ' 0 failed' | head -3")
